@@ -1,10 +1,42 @@
-//! development entry point (feature `dev`): sub-commands still being written
-mod c06;
+//! development entry point (feature `dev`): sub-commands still being written + an ad-hoc SQL runner
+mod c09;
 mod vals;
+use std::sync::Arc;
 fn main() {
     let a: Vec<String> = std::env::args().collect();
     match a.get(1).map(|s| s.as_str()).unwrap_or("") {
-        "c06" => c06::main(),
+        "c09" => c09::main(),
+        "sql" => {
+            // vops2dev sql "<statement>;<statement>;..."  (each printed)  [--partitions N] [--set k=v]
+            let rt = tokio::runtime::Runtime::new().unwrap();
+            let mut cfg = datafusion::prelude::SessionConfig::new();
+            if let Some(n) = vcommon::util::arg("--partitions") {
+                cfg = cfg.with_target_partitions(n.parse().unwrap());
+            }
+            for (i, x) in a.iter().enumerate() {
+                if x == "--set" {
+                    let (k, v) = a[i + 1].split_once('=').unwrap();
+                    cfg = cfg.set_str(k, v);
+                }
+            }
+            let ctx = datafusion::prelude::SessionContext::new_with_config(cfg);
+            rt.block_on(async {
+                for st in a[2].split(';') {
+                    if st.trim().is_empty() {
+                        continue;
+                    }
+                    println!("> {}", st.trim());
+                    match ctx.sql(st).await {
+                        Ok(df) => match df.collect().await {
+                            Ok(b) => println!("{}", arrow::util::pretty::pretty_format_batches(&b).unwrap()),
+                            Err(e) => println!("ERROR {e}"),
+                        },
+                        Err(e) => println!("ERROR {e}"),
+                    }
+                }
+            });
+            let _ = Arc::new(0);
+        }
         _ => std::process::exit(2),
     }
 }
